@@ -124,3 +124,36 @@ Proof.
   unfold rules2_unconditional. repeat first [apply Forall_cons | apply Forall_nil].
   - exact r3_slc_push_sound. - exact r4_tst_const_sound.
 Qed.
+
+(* comp.restruct keeps well-sizedness, width and meaning *)
+Theorem restruct_sound env : forall e, wf e = true ->
+  wf (restruct e) = true /\ esize (restruct e) = esize e /\ forall d, denote env e = Some d -> denote env (restruct e) = Some d.
+Proof.
+  induction e as [v n sf|name n sf|x IHx pos n sf|lo IHlo hi IHhi n sf|c IHc l IHl r IHr n sf|o l IHl r IHr n sf|o r IHr n sf];
+    intros W; try (split; [exact W|split; [reflexivity|intros d H; exact H]]).
+  cbn [wf] in W. boolH.
+  destruct (IHhi ltac:(assumption)) as (Wh & Sh & Dh). clear IHlo IHhi.
+  assert (Gen : wf (ECat lo (restruct hi) n sf) = true /\ esize (ECat lo (restruct hi) n sf) = esize (ECat lo hi n sf) /\
+                forall d, denote env (ECat lo hi n sf) = Some d -> denote env (ECat lo (restruct hi) n sf) = Some d).
+  { split; [cbn [wf]; rewrite Wh, Sh, H; cbn [andb]; apply Z.eqb_eq; assumption|].
+    split; [reflexivity|]. intros d Hd. cbn [denote] in Hd |- *. destruct (denote env lo) as [a|]; [|discriminate].
+    destruct (denote env hi) as [b|] eqn:Eb; [|discriminate]. rewrite (Dh b eq_refl). exact Hd. }
+  cbn [restruct]. destruct lo as [a na sfa| | | | | |]; try exact Gen.
+  destruct (restruct hi) as [b nb sfb| | |lo2 rest n2 sf2| | |] eqn:Er; try exact Gen.
+  - (* both constants *)
+    cbn [wf esize] in *. boolH. assert (0 < 2 ^ na) by (apply pow_pos; lia).
+    split; [repeat (apply andb_true_intro; split); try (apply Z.ltb_lt); try (apply Z.leb_le); try nia;
+            rewrite Z.pow_add_r by lia; nia|].
+    split; [lia|]. intros d Hd. cbn [denote esize] in Hd. destruct (denote env hi) as [vb|] eqn:Eb; [|discriminate].
+    pose proof (Dh vb eq_refl) as Db. cbn [denote] in Db. inversion Db; subst vb. inversion Hd; subst d.
+    cbn [denote]. f_equal. rewrite (trunc_small na a), (trunc_small nb b) by lia. apply trunc_small. rewrite Z.pow_add_r by lia. nia.
+  - destruct lo2 as [b nb sfb| | | | | |]; try exact Gen.
+    cbn [wf esize] in *. boolH. assert (0 < 2 ^ na) by (apply pow_pos; lia).
+    split; [repeat (apply andb_true_intro; split); try assumption; try (apply Z.ltb_lt); try (apply Z.leb_le); try (apply Z.eqb_eq); try nia;
+            rewrite Z.pow_add_r by lia; nia|].
+    split; [reflexivity|]. intros d Hd. cbn [denote esize] in Hd. destruct (denote env hi) as [vb|] eqn:Eb; [|discriminate].
+    pose proof (Dh vb eq_refl) as Db. cbn [denote esize] in Db. destruct (denote env rest) as [vr|] eqn:Erest; [|discriminate].
+    inversion Db; subst vb. inversion Hd; subst d. cbn [denote esize]. rewrite Erest.
+    rewrite (trunc_small na a), (trunc_small nb b) by lia. rewrite (trunc_small (na + nb)) by (rewrite Z.pow_add_r by lia; nia).
+    rewrite Z.pow_add_r by lia. try rewrite Erest. f_equal. ring.
+Qed.
